@@ -301,7 +301,12 @@ class NameResolutionMixin(MetadataDependent):
 
     def find_accesses(self, node) -> Collection[Access]:
         if scope := self.get_metadata(ScopeProvider, node, None):
-            return scope.accesses[node]
+            accesses = set(scope.accesses[node])
+            # Reads made in nested scopes (closures, lambdas) are not accesses of
+            # this scope: they are reached through the assignments' references
+            for assignment in scope.assignments[node]:
+                accesses |= assignment.references
+            return accesses
         return {}
 
     def class_has_method(self, classdef: cst.ClassDef, method_name: str) -> bool:
